@@ -106,7 +106,11 @@ class C05:
             return ("sub", c, ("const", i))
 
         if len(fs.returns) != 1:
-            ctx.undec("R05.2", f"{file}:{fs.node.lineno} {fn}", f"{len(fs.returns)} returns")
+            extra = fs.returns[0] if fs.returns else None
+            ctx.bad("R05.2", file, fn, f"{len(fs.returns)} return paths",
+                    f"{fn} has {len(fs.returns)} return paths ({'; '.join(show(r.term)[:50] + ' if ' + show(r.live)[:40] for r in fs.returns[:3])}): "
+                    f"a converter must hand the coordinates to shapely unchanged on every path (no repair / simplification of the shape, "
+                    f"which changes its coordinates and bounds)", fs.node.lineno)
             return
         r = fs.returns[0]
         t = r.term
